@@ -24,6 +24,11 @@ CLAIMS = {
   "¬HasWith ∧ ¬KeepVarNames; every generated name passes isReserved, which consults all keywords and all undeclared variables; only renameScope writes identifier names and never the "
   "program scope, labels, property or import/export names; hoisted names are registered in intermediate scopes; the name alphabets are valid and duplicate-free.",
   OTHER_NOTE, "DESIGN.md §4 C02"),
+ "C03": ("other",
+  "reachability under stipulated state (raw text / pre) on the CFG, finite-domain evaluation of end-tag-omission guards over token kind × trait bits, subset checks against the HTML optional-tag lists, must-pass-through for the quoting routine",
+  "Decides three local clauses (R03.1-R03.3, DESIGN.md §4 C03): text inside raw-text elements and pre is never whitespace/entity rewritten; no end tag is omitted on the strength of an element the minifier has no traits for, and unconditional omissions stay within the standard's optional-tag lists; "
+  "every attribute value passes html.EscapeAttrVal. The trait tables are decided under C17. Whitespace significance per document, optional-tag inference in every context and `</script` inside script text are not decided.",
+  OTHER_NOTE, "DESIGN.md §4 C03"),
  "C05": ("other",
   "must-pass-through on the CFG of the path emitter, guard classification and constant evaluation of (attribute, value) pairs in the attribute-dropping conditions",
   "Decides (R05.1-R05.3, DESIGN.md §4 C05): emitting command bytes always updates the last-command state; an attribute is only dropped when already removed, when it carries a documented SVG default, or when it has a non-functional namespace prefix (xlink/xml exempt); "
